@@ -40,6 +40,20 @@ def make_client(pkg, service_module, client_name, http_host, method, intercept, 
     return getattr(svc, client_name)(transport=tr), hook
 
 
+async def call_async(pkg, spec, host, cls):
+    """One unary call over the emitted asyncio REST transport (aiohttp session of google.auth.aio)."""
+    from google.auth.aio.credentials import AnonymousCredentials
+    svc = importlib.import_module(f"{pkg}.services.{spec['service_module']}")
+    ra = importlib.import_module(f"{pkg}.services.{spec['service_module']}.transports.rest_asyncio")
+    tname = sorted([n for n in dir(ra) if n.startswith("Async") and n.endswith("RestTransport")], key=len)[0]
+    tr = getattr(ra, tname)(host=host, url_scheme="http", credentials=AnonymousCredentials())
+    try:
+        client = getattr(svc, spec["client"])(transport=tr)
+        return await getattr(client, spec["method"])(request=D.build_message(cls, spec["request"]["b64"]))
+    finally:
+        await tr.close()
+
+
 def main():
     payload = json.load(sys.stdin)
     sys.path.insert(0, payload["root"])
@@ -54,6 +68,13 @@ def main():
         try:
             r = spec["request"]
             cls = D.resolve(r["cls"])
+            if spec.get("transport") == "rest_asyncio":
+                import asyncio
+                rec["result"] = [D.encode_value(asyncio.run(call_async(payload["package"], spec, hs.host, cls)))]
+                rec["hook_calls"] = 0
+                rec["http_calls"] = hs.take_calls()
+                results.append(rec)
+                continue
             client, hook = make_client(payload["package"], spec["service_module"], spec["client"], hs.host, spec["method"],
                                        spec.get("intercept"), cls)
             if r["mode"] == "stream":
